@@ -71,7 +71,23 @@ def r1(model, rep):
     hooks = LawHooks(model, "PMux")
     sm = Summarizer(hooks, Ctx())
     env = {PS: Sym(("name", "pstate")), VI: Vec("vi"), fm.var: Sym(("name", "k"))}
-    got = sm.cond(fm.cond, State(env))
+    if fm.form == "D":
+        # a tree of exits: the scan ends at the first input for which any exit condition holds, with that exit's value
+        exits = []
+        for conds, val in fm.paths:
+            fs = [sm.cond(t, State(dict(env))) if pol else Not(sm.cond(t, State(dict(env)))) for t, pol in conds]
+            exits.append((And(*fs) if fs else True, val))
+        from ..guards import Or
+        got = Or(*[f for f, val in exits if isinstance(val, ast.Name) and val.id == fm.var]) if any(isinstance(val, ast.Name) and val.id == fm.var for _, val in exits) else False
+        for f, val in exits:
+            if not (isinstance(val, ast.Name) and val.id == fm.var):
+                al_atoms = sorted(atoms_of(f), key=repr) if f is not True else []
+                import itertools as _it
+                if f is True or any(ev(f, dict(zip(al_atoms, bits))) is True for bits in _it.product((False, True), repeat=len(al_atoms))):
+                    ok = False
+                    rep.violation("R1", construct, where, "the scan gives up with %s at the first input for which %s, without looking at the inputs after it" % (ast.unparse(val) if val is not None else "None", show_f(f) if f is not True else "anything"), "scan abandons at " + (show_f(f) if f is not True else "first"))
+    else:
+        got = sm.cond(fm.cond, State(env))
     ref = ast.parse('not pstate["off"][k] and abs(vi[k]) != 0.0', mode="eval").body
     want = sm.cond(ref, State({"pstate": Sym(("name", "pstate")), "vi": Vec("vi"), "k": Sym(("name", "k"))}))
     atoms = sorted(atoms_of(got) | atoms_of(want), key=repr)
